@@ -1,10 +1,15 @@
-(* Regression_C07_kll.v — the iterator AS CODED (kll_sketch::const_iterator, model KllDefs.iterate) violates
+(* Regression_C07_kll.v — the iterator AS CODED before the repair fixes/07_kll_iterator.patch (the constructor of
+   kll_sketch::const_iterator started at level 0 with weight 1 without looking whether level 0 is empty) violates
    "weights sum to n" on a reachable sketch whose level 0 is empty after a merge (finding F2):
-   a(k=8) after 37 updates, merged with b(k=8) after 91 updates -> n = 128, 26 retained items, every weight 1. *)
+   a(k=8) after 37 updates, merged with b(k=8) after 91 updates -> n = 128, 26 retained items, every weight 1.
+   The repaired iterator is KllDefs.iterate (theorem C07_kll_iterator_spec). *)
 From Coq Require Import ZArith List Bool Lia.
 From DS Require Import RunnerLib SortedView KllDefs KllProofs KllView.
 Import ListNotations.
 Local Open Scope Z_scope.
+
+(* begin() as it was coded: index = levels_[0], level = 0, weight = 1, nothing skipped; operator++ unchanged (iter_go) *)
+Definition iterate_as_coded (s : kll) : list (Z * Z) := iter_go (concat (levels s)) (levels s) 0 0%nat 1.
 
 (* feed a stream with explicit coins *)
 Fixpoint feed (s : kll) (xs : list Z) (cs : list Z) : option (kll * list Z) :=
@@ -52,12 +57,14 @@ Proof.
 Qed.
 
 Lemma witness_values : exists s, witness = Some s /\ nn s = 128 /\ num_retained s = 26 /\
-  sum_weights (iterate s) = 26 /\ hd [1] (levels s) = [] /\ sum_weights (iterate_fixed s) = 128.
+  sum_weights (iterate_as_coded s) = 26 /\ hd [1] (levels s) = [] /\ sum_weights (iterate s) = 128.
 Proof. vm_compute. eexists. repeat split; reflexivity. Qed.
 
 (* the property "iterating the retained items yields weights that sum to n" fails for the iterator as coded *)
-Theorem kll_iter_refuted : exists s log, reach s log /\ sum_weights (iterate s) <> nn s.
+Theorem C07_kll_iterator_as_coded_refuted : exists s log, reach s log /\ sum_weights (iterate_as_coded s) <> nn s.
 Proof.
   destruct witness_values as (s & W & N & _ & I & _).
   exists s, (stream 0 37 ++ stream 1000 91). split; [now apply witness_reach|]. rewrite I, N. lia.
 Qed.
+
+Print Assumptions C07_kll_iterator_as_coded_refuted.
